@@ -4,7 +4,7 @@ use crate::ast::node::Node;
 use crate::ast::Ast;
 use crate::diagnostics::{Diagnostic, Diagnostics, Error, Note};
 use crate::grammar::*;
-use std::collections::{BTreeSet, HashSet};
+use std::collections::{BTreeSet, HashMap, HashSet};
 
 pub(super) fn detect_cycles(ast: &Ast, diagnostics: &mut Diagnostics) {
     // Aliases that contain themselves through an anonymous type (ex: 'typealias A = Sequence<A>'): the type patcher binds
@@ -33,8 +33,31 @@ pub(super) fn detect_cycles(ast: &Ast, diagnostics: &mut Diagnostics) {
         }
     }
 
+    // For each struct and enum, determine which types directly depend on it (have a field that uses it).
+    let mut dependents: HashMap<String, Vec<String>> = HashMap::new();
+    for node in ast.as_slice() {
+        let (type_id, fields) = match node {
+            Node::Struct(struct_def) => (struct_def.borrow().module_scoped_identifier(), struct_def.borrow().fields()),
+            Node::Enum(enum_def) => {
+                let enumerators = enum_def.borrow().enumerators();
+                let fields = enumerators.into_iter().flat_map(|enumerator| enumerator.contents());
+                (enum_def.borrow().module_scoped_identifier(), fields.collect())
+            }
+            _ => continue,
+        };
+
+        let mut dependencies = Vec::new();
+        for field in fields {
+            get_dependencies_of(field.data_type(), &mut dependencies);
+        }
+        for dependency in dependencies {
+            dependents.entry(dependency).or_default().push(type_id.clone());
+        }
+    }
+
     let mut cycle_detector = CycleDetector {
         type_being_checked: None,
+        types_depending_on_checked_type: HashSet::new(),
         dependency_stack: Vec::new(),
         reported_cycles: HashSet::new(),
         diagnostics,
@@ -49,9 +72,40 @@ pub(super) fn detect_cycles(ast: &Ast, diagnostics: &mut Diagnostics) {
             _ => continue,
         };
 
+        // Determine which types depend on the candidate (directly or not): only these can be part of a cycle with it.
+        let candidate_type_id = candidate.module_scoped_identifier();
+        let mut types_depending_on_candidate = HashSet::new();
+        let mut pending = vec![&candidate_type_id];
+        while let Some(type_id) = pending.pop() {
+            for dependent in dependents.get(type_id).into_iter().flatten() {
+                if types_depending_on_candidate.insert(dependent.clone()) {
+                    pending.push(dependent);
+                }
+            }
+        }
+
         debug_assert!(cycle_detector.dependency_stack.is_empty());
-        cycle_detector.type_being_checked = Some((candidate.module_scoped_identifier(), candidate));
+        cycle_detector.types_depending_on_checked_type = types_depending_on_candidate;
+        cycle_detector.type_being_checked = Some((candidate_type_id.clone(), candidate));
         candidate.check_for_cycles(&mut cycle_detector)
+    }
+}
+
+/// Adds the type-id of every struct and enum that is used by the provided type to `dependencies`.
+fn get_dependencies_of(type_ref: &TypeRef, dependencies: &mut Vec<String>) {
+    match type_ref.concrete_type() {
+        Types::Struct(struct_ref) => dependencies.push(struct_ref.module_scoped_identifier()),
+        Types::Enum(enum_ref) => dependencies.push(enum_ref.module_scoped_identifier()),
+        Types::ResultType(result_type) => {
+            get_dependencies_of(&result_type.success_type, dependencies);
+            get_dependencies_of(&result_type.failure_type, dependencies);
+        }
+        Types::Sequence(sequence) => get_dependencies_of(&sequence.element_type, dependencies),
+        Types::Dictionary(dictionary) => {
+            get_dependencies_of(&dictionary.key_type, dependencies);
+            get_dependencies_of(&dictionary.value_type, dependencies);
+        }
+        Types::Primitive(_) | Types::CustomType(_) => {}
     }
 }
 
@@ -130,6 +184,9 @@ struct CycleDetector<'a> {
     /// Stores a tuple of `(type_id, reference)` for the type currently being checked for cycles.
     type_being_checked: Option<(String, &'a dyn CycleCandidate<'a>)>,
 
+    /// Stores the type-ids of the types that (directly or indirectly) contain the type currently being checked.
+    types_depending_on_checked_type: HashSet<String>,
+
     /// A stack containing all the fields we've seen in the dependency tree we're currently traversing through.
     /// Each stack element is made up of the type-id of the field's type, and a reference to the field itself.
     dependency_stack: Vec<(String, &'a Field)>,
@@ -179,6 +236,13 @@ impl<'a> CycleDetector<'a> {
             self.dependency_stack.push((candidate_type_string, origin));
             self.report_cycle_error();
             self.dependency_stack.pop();
+            return;
+        }
+
+        // If the candidate doesn't contain the type we're checking, no cycle can go through it, so we skip it.
+        // Otherwise we'd walk every path through the types it contains, and the number of these paths can grow
+        // exponentially with the number of types, even when there are no cycles at all.
+        if !self.types_depending_on_checked_type.contains(&candidate_type_string) {
             return;
         }
 
